@@ -530,6 +530,31 @@ def fortran_c_agreement(ctx, tabs):
                         ctx.item(ident + ".param%d" % i, good, "C %r vs Fortran %r: %s" % (c, f, why))
 
 
+def lookup_path_agreement(ctx, repo):
+    """C04/T4: every site that looks up "the C statement row" of an argument / result resolves to the same row on
+    every point of the key domain (tables/lookup_agree.py: keys read from the real source, real lookup function)."""
+    for lang in ("c", "cxx"):
+        env = dict(os.environ)
+        env["VERIF_REPO"] = repo
+        p = subprocess.run([VENV_PY, os.path.join(HERE, "lookup_agree.py"), lang], capture_output=True, text=True, env=env, timeout=600)
+        if p.returncode != 0:
+            raise RuntimeError("lookup_agree failed for %s: %s" % (lang, p.stderr[-1500:]))
+        d = json.loads(p.stdout[p.stdout.index("{"):])
+        ctx.item("C04/T4/%s/key-components-recognised" % lang, not d["unrecognised"],
+                 "lookup key components the checker does not know: %r" % d["unrecognised"])
+        kinds = d["kinds"]
+        for want in ("argument", "function result", "result passed as argument"):
+            ctx.item("C04/T4/%s/%s.sites" % (lang, want), want in kinds and len(kinds[want]["sites"]) >= 3,
+                     "expected the three lookup sites (wrapc.wrap_function, wrapf.wrap_function_interface, "
+                     "wrapf.wrap_function_impl) for %s, found %r" % (want, (kinds.get(want) or {}).get("sites")))
+        for kind, v in sorted(kinds.items()):
+            mm = v["mismatches"]
+            ctx.item("C04/T4/%s/%s.same-row" % (lang, kind), not mm and v["points"] > 0,
+                     "the sites %r resolve to different statement rows, e.g. at %r" % (v["sites"], mm[:1]),
+                     sample={"kind": kind, "sites": v["sites"], "points_evaluated": v["points"], "mismatch": mm[:1]})
+        ctx.extra.setdefault("lookup_points", {})[lang] = dict((k, v["points"]) for k, v in kinds.items())
+
+
 def c_struct_members(src):
     m = re.search(r'struct\s+\w+\s*\{\+?(.*?)\n-?\};', src, re.S)
     if not m:
